@@ -110,7 +110,7 @@ def _lock_report(name, text, status, stalled, args):
         rep["distinct_extra"] += r["distinct_final_orders"]
         rep["wall_s"] += r["wall_s"]
         for v in r["first"]:
-            rep["violations"].append({"property": "C20", "kind": "deadlock" if "lost wake-up / deadlock" in v else "history", "detail": f"{name}: {v}", "case": case})
+            rep["violations"].append({"property": "C20", "kind": "deadlock" if ("lost wake-up / deadlock" in v or ": deadlock" in v) else "history", "detail": f"{name}: {v}", "case": case})
         if r["violations"] and not r["first"]:
             rep["violations"].append({"property": "C20", "kind": "history", "detail": f"{name}: {r['violations']} violations", "case": case})
     if len(rep["samples"]) == 0:
